@@ -1080,6 +1080,51 @@ func (g *Engine) opFirstRace(s hx.M) {
 		"escaped": escaped, "missing": missing, "conc_in": concIn, "pass": passSum, "conc_after": concAfter, "complete": complSum, "st": g.st()})
 }
 
+// opManyRes: more distinct resources than any internal bound of the library (base.DefaultMaxResourceAmount = 10000): every one
+// of n never-seen resources is entered once (inbound, batch b) and exited at a frozen clock.  Recorded: what the inbound total
+// gained, and how many of the resources have no statistic node or one that did not record the pass.  Terminal op (like stress).
+func (g *Engine) opManyRes(s hx.M) {
+	n, b := int(hx.Int(s, "n")), hx.Int(s, "b")
+	in := stat.InboundNode()
+	all, _ := in.GenerateReadStat(1, pint)
+	sum := func(ev base.MetricEvent) int64 {
+		if all != nil {
+			return all.GetSum(ev)
+		}
+		return in.GetSum(ev)
+	}
+	p0, c0, conc0 := sum(base.MetricEventPass), sum(base.MetricEventComplete), int64(in.CurrentConcurrency())
+	g.stress = true
+	base0 := g.neid
+	var missing, escaped, blocked int64
+	for i := 0; i < n; i++ {
+		name := fmt.Sprintf("%s_m%d", g.name2("r1"), i)
+		func() {
+			defer func() {
+				if r := recover(); r != nil {
+					escaped++
+				}
+			}()
+			e, be := api.Entry(name, g.entryOpts(base0+int64(i)+1, hx.M{"so": "pass", "b": float64(b), "inb": true})...)
+			if be != nil {
+				blocked++
+			}
+			if e != nil {
+				e.Exit()
+			}
+		}()
+		if node := stat.GetResourceNode(name); node == nil || node.GetSum(base.MetricEventPass) != b {
+			missing++
+		}
+	}
+	g.stress = false
+	g.neid = base0 + int64(n)
+	g.sPassed, g.sCompl, g.sBlocked = sync.Map{}, sync.Map{}, 0
+	g.Tr.Emit(hx.M{"op": "manyres", "n": n, "b": b, "escaped": escaped, "blocked": blocked, "missing": missing,
+		"in_pass": sum(base.MetricEventPass) - p0, "in_complete": sum(base.MetricEventComplete) - c0,
+		"in_conc": int64(in.CurrentConcurrency()) - conc0})
+}
+
 var nameMu sync.Mutex
 
 func (g *Engine) name2(tok string) string {
@@ -1120,6 +1165,8 @@ func (g *Engine) Run(scn []hx.M) {
 			g.opStress(s)
 		case "firstrace":
 			g.opFirstRace(s)
+		case "manyres":
+			g.opManyRes(s)
 		default:
 			hx.Fatal("unknown op %q", op)
 		}
